@@ -59,6 +59,30 @@ func c09Beyond(s *hx.Spec) bool {
 	return false
 }
 
+// arrays that share one backing array (a slice and a prefix of it, re-slices with other capacities) are
+// compared element by element like any others
+
+type c09AliasCase struct {
+	Expr string `json:"expr"`
+	Want string `json:"want"`
+}
+
+var c09Alias = hx.Define("c09.aliased-arrays", func(c *c09AliasCase, s *hx.Sub) *hx.Violation {
+	all := []any{1, 2, 3, 4}
+	ints := []int{1, 2, 3, 4}
+	b := map[string]any{"all": all, "pre": all[:2], "precap": all[:2:2], "same": all[:4], "tail": all[2:], "ints": ints, "ipre": ints[:3], "lists": []any{all[:2], all[1:3]}, "empty": all[:0]}
+	src := "{{ " + c.Expr + " }}"
+	o := hx.Render(src, b)
+	if o.Panic != nil {
+		return hx.V("panic@"+o.Panic.Site, "%s: %v", src, o.Panic)
+	}
+	if !o.OK() || o.Out != c.Want {
+		return hx.V("c09:aliased-arrays", "%s with all = [1, 2, 3, 4], pre = all[:2], precap = all[:2:2], same = all[:4], tail = all[2:], empty = all[:0], ints/ipre a []int and its first three, lists = [all[:2], all[1:3]] (Go re-slices of one array): rendered %v, expected %q (arrays are equal when element-wise equal)", src, o, c.Want)
+	}
+	s.NT()
+	return nil
+})
+
 func litable(s *hx.Spec) bool {
 	if s.R != "" || s.Drop > 0 || s.Ptr || s.U != 0 {
 		return false
@@ -267,6 +291,15 @@ func TestC09(t *testing.T) {
 			if litable(a.Spec) && litable(b.Spec) {
 				pair.Run(&c09PairCase{A: a.Name, B: b.Name, Lit: true})
 			}
+		}
+	}
+
+	al := c09Alias.On(col, "exhaustive over a list: a bound slice and Go re-slices of it (a prefix, a prefix with its own capacity, the whole, a tail, the empty prefix; generic and typed) compared with ==, !=, <=, contains. Oracle: element-wise equality. Distinct by construction", true)
+	for i, c := range []c09AliasCase{{"pre == all", "false"}, {"all == pre", "false"}, {"pre != all", "true"}, {"precap == all", "false"}, {"same == all", "true"}, {"tail == all", "false"}, {"empty == all", "false"}, {"empty == pre", "false"},
+		{"ipre == ints", "false"}, {"ints == all", "true"}, {"ipre == pre", "false"}, {"pre <= all", "false"}, {"all >= pre", "false"}, {"lists contains all", "false"}, {"lists contains pre", "true"}, {"lists contains precap", "true"}, {"pre == precap", "true"}} {
+		if env.Mine(i) {
+			c := c
+			al.Run(&c)
 		}
 	}
 
